@@ -332,6 +332,22 @@ def slice_(t, lo, hi):
             b = min(b, n)
             if b < a:
                 b = a
+        if is_op(t, 'CAT') and n is None and is_const(lo) and is_const(hi) and a == 0 \
+                and isinstance(b, int) and b < 0:
+            segs = list(t[2:])
+            drop = -b
+            while segs and drop > 0:
+                l = length_of(segs[-1])
+                if l is None:
+                    break
+                if l <= drop:
+                    drop -= l
+                    segs.pop()
+                else:
+                    segs[-1] = slice_(segs[-1], const(0), const(l - drop))
+                    drop = 0
+            if drop == 0:
+                return cat(*segs) if segs else (const('') if type_of(t) == 'str' else const(b''))
         if is_const(t) and isinstance(t[1], (bytes, str)):
             return const(t[1][a:b])
         if tag(t) in ('list', 'tuple') and (b is None or b >= 0) and a >= 0:
@@ -436,6 +452,16 @@ def getitem(t, idx):
                     if pos <= i < pos + l:
                         return getitem(s, const(i - pos))
                     pos += l
+    if is_const(idx) and isinstance(idx[1], int) and idx[1] < 0 and is_op(t, 'CAT'):
+        back = -idx[1]
+        pos = 0
+        for sg in reversed(t[2:]):
+            l = length_of(sg)
+            if l is None:
+                break
+            if pos < back <= pos + l:
+                return getitem(sg, const(l - (back - pos)))
+            pos += l
     if tag(t) == 'dict' and tag(idx) == 'enum':
         for k, v in t[1]:
             if k == idx:
@@ -660,6 +686,10 @@ def eq(a, b):
         for x, y in zip(a[1], b[1]):
             r = and_(r, eq(x, y))
         return r
+    for x, y in ((a, b), (b, a)):
+        if is_op(x, 'GETITEM') and is_op(x[2], 'STR') and type_of(x[2][2]) == 'int' and is_const(y) \
+                and isinstance(y[1], str) and (len(y[1]) != 1 or y[1] not in '0123456789-'):
+            return FALSE
     # values of different known static types are never equal
     ta, tb = type_of(a), type_of(b)
     if ta and tb and ta != tb and not ({ta, tb} <= {'int', 'bool', 'float'}):
@@ -954,6 +984,42 @@ def subst(t, mapping, _memo=None):
         r = phi(subst(t[1], mapping, memo), subst(t[2], mapping, memo), subst(t[3], mapping, memo))
     elif k == 'bound':
         r = ('bound', subst(t[1], mapping, memo), t[2])
+    else:
+        r = t
+    memo[i] = (t, r)
+    return r
+
+
+def assume(t, facts, _memo=None):
+    """Simplify t under the assumption that every boolean term in `facts` holds."""
+    memo = {} if _memo is None else _memo
+    if not isinstance(t, tuple):
+        return t
+    i = id(t)
+    if i in memo:
+        return memo[i][1]
+    k = tag(t)
+    if k == 'phi':
+        c = assume(t[1], facts, memo)
+        if c in facts or c == TRUE:
+            r = assume(t[2], facts, memo)
+        elif not_(c) in facts or c == FALSE:
+            r = assume(t[3], facts, memo)
+        else:
+            r = phi(c, assume(t[2], facts, memo), assume(t[3], facts, memo))
+    elif k in ('tuple', 'list'):
+        r = (k, tuple(assume(x, facts, memo) for x in t[1]))
+    elif k == 'dict':
+        r = ('dict', tuple((assume(a, facts, memo), assume(b, facts, memo)) for a, b in t[1]))
+    elif k == 'obj':
+        r = ('obj', t[1], tuple((n, assume(v, facts, memo)) for n, v in t[2]))
+    elif k == 'op':
+        if t in facts:
+            r = TRUE
+        elif type_of(t) == 'bool' and not_(t) in facts:
+            r = FALSE
+        else:
+            r = op(t[1], *[assume(x, facts, memo) if isinstance(x, tuple) else x for x in t[2:]])
     else:
         r = t
     memo[i] = (t, r)
